@@ -375,9 +375,14 @@ impl Sim {
                 let s = params["string"].as_str().unwrap_or("").to_string();
                 let cur = self.store.get(&key).cloned();
                 let err = |code: i32, m: &str| RpcErr { code: Some(code), message: m.to_string(), transport: false };
+                // the append modes glue the new text to what is stored
+                let s = match (mode, &cur) {
+                    ("must-append", Some((old, _))) | ("create-or-append", Some((old, _))) => format!("{}{}", old, s),
+                    _ => s,
+                };
                 let verdict: Result<u64, RpcErr> = match (mode, &cur) {
                     ("must-create", Some(_)) => Err(err(1202, "already exists")),
-                    ("must-replace", None) => Err(err(1203, "does not exist")),
+                    ("must-replace", None) | ("must-append", None) => Err(err(1203, "does not exist")),
                     (_, _) => match (gen, &cur) {
                         (Some(_), None) => Err(err(1203, "does not exist")),
                         (Some(g), Some((_, cg))) if g != *cg => Err(err(1204, "generation is different")),
@@ -533,11 +538,13 @@ impl Sim {
             pre[5] ^= 1;
         }
         let nparts = self.parts.iter().filter(|p| p.cmd == cmd).count();
+        // (what the node reports as sent counts completed parts only)
+        let sent = self.parts.iter().filter(|p| p.cmd == cmd && p.st == "complete").count();
         let base = |status: &str, pre: String| {
             json!({
                 "destination": cat::payee_pub(1).to_string(),
                 "payment_hash": hex::encode(secp256k1::hashes::Hash::to_byte_array(cat::hash_of(k))),
-                "created_at": 1.0, "parts": nparts, "amount_msat": 1, "amount_sent_msat": 1,
+                "created_at": 1.0, "parts": nparts, "amount_msat": 1, "amount_sent_msat": sent,
                 "payment_preimage": pre, "status": status,
             })
         };
